@@ -496,8 +496,10 @@ def finish(ctx, level, technique, trusted_base, assumptions, predicates=None, ru
     }
     if extra:
         cov.update(extra)
+    cov["generators"] = ctx.tier
+    cov["modelled_sources_changed_since_pinned"] = list(getattr(ctx, "changed_sources", []))
     ev = {
-        "property_id": ctx.pid, "tier": ctx.tier, "seed": ctx.seed, "level": level,
+        "property_id": ctx.pid, "tier": getattr(ctx, "requested_tier", ctx.tier), "seed": ctx.seed, "level": level,
         "coverage": cov, "assumptions": assumptions, "wall_s": round(time.time() - ctx.t0, 2),
         "violations": len(unmatched) + (1 if (ctx.infra and not unmatched) else 0),
     }
